@@ -44,6 +44,8 @@
      C14_blank_lines_program (Parse/BlankCtx.v, Parse/BlankSim.v) BLANK LINES anywhere (every nesting level; comment-only
                         lines count as blank): both files accepted with the same tree up to EmptyStatements at every
                         level (Syntax/DropEmpty.v), or both rejected - by a stuttering simulation of the whole parser.
+     C14_blank_line_lexer, C14_blank_line_source (Lex/WsInsert.v nl_insert_raw) a blank line added to the SOURCE TEXT
+                        after a line break: one more Newline token, nothing else changes; hence the above applies.
    Nothing of this file is left as an unproved Prop except the refuted first formulation
    C14_nl_in_brackets_statement_level (kept visible next to its refutation).  *)
 From Coq Require Import String List NArith Bool Arith.
@@ -521,6 +523,68 @@ Print Assumptions C14_ws_insert_same_parser_input.
 Print Assumptions C14_respace_same_parser_input.
 Print Assumptions C14_crlf_same_program.
 
+(* ---- a blank line in the SOURCE TEXT ----
+   The line-break character inserted right after a line-break token of the source (or at the very start): the
+   lexer gives one more Newline token there (Lex/WsInsert.v, nl_insert_raw: every other raw token is unchanged -
+   a regex without the line-break character dies on it, after the line-break token nothing goes on), so the
+   parser's token list has one more blank line and C14_blank_lines_program applies.  With C14_respace on top the
+   new line may contain white space. *)
+Definition C14_pNewline : pat := nth 65 gen_table C14_dpat.
+Lemma C14_tab_n0 : Lex.WsInsert.n0 C14_before_string = true /\ Lex.WsInsert.n0 C14_after_string = true.
+Proof. split; vm_compute; reflexivity. Qed.
+Lemma C14_tab_N :
+  best_nullable (step_live 10 C14_before_string ++ step_live 10 C14_after_string)%list None = Some C14_pNewline /\
+  p_cb C14_pNewline = CbUnit /\ p_kind C14_pNewline = "Newline"%string.
+Proof. split; [vm_compute; reflexivity|split; reflexivity]. Qed.
+
+Theorem C14_blank_line_lexer : forall s1 s2 rs1,
+  concat (map r_text rs1) = s1 ->
+  raw_lex (length (s1 ++ s2)) gen_table (s1 ++ s2) = rs1 ++ raw_lex (length s2) gen_table s2 ->
+  Lex.WsInsert.ends10 rs1 ->
+  raw_lex (length (s1 ++ 10%N :: s2)) gen_table (s1 ++ 10%N :: s2)
+  = (rs1 ++ mkR (KTok "Newline" PNone) [10%N] :: raw_lex (length s2) gen_table s2)%list.
+Proof.
+  intros s1 s2 rs1.
+  exact (Lex.WsInsert.nl_insert_raw gen_table C14_pString C14_pComment C14_pWhitespace C14_before_string C14_after_string
+           C14_tab_L0 C14_tab_E1 C14_tab_E2 C14_tab_34 C14_tab_47 C14_pNewline C14_tab_n0 C14_tab_N rs1 s1 s2).
+Qed.
+
+Theorem C14_blank_line_source : forall s1 s2 rs1 f f',
+  concat (map r_text rs1) = s1 ->
+  raw_lex (length (s1 ++ s2)) gen_table (s1 ++ s2) = rs1 ++ raw_lex (length s2) gen_table s2 ->
+  Lex.WsInsert.ends10 rs1 ->
+  hd TEOF (CommentSim.ec (map classify (lex gen_table (s1 ++ s2)))) <> TEOF ->
+  parse_fuel (map classify (lex gen_table (s1 ++ s2))) <= f ->
+  parse_fuel (map classify (lex gen_table (s1 ++ 10%N :: s2))) <= f' ->
+  match parse_program gen_ptab f (map classify (lex gen_table (s1 ++ s2))),
+        parse_program gen_ptab f' (map classify (lex gen_table (s1 ++ 10%N :: s2))) with
+  | Ok (ss, _), Ok (ss', _) => Syntax.DropEmpty.de_program ss = Syntax.DropEmpty.de_program ss'
+  | Err _ _, Err _ _ => True
+  | _, _ => False
+  end.
+Proof.
+  intros s1 s2 rs1 f f' Hc H He Hne Hf Hf'.
+  destruct (Lex.WsInsert.nl_insert_c gen_table C14_pString C14_pComment C14_pWhitespace C14_before_string C14_after_string
+              C14_tab_L0 C14_tab_E1 C14_tab_E2 C14_tab_34 C14_tab_47 C14_pNewline C14_tab_n0 C14_tab_N
+              s1 s2 rs1 Hc H He) as [EA EB].
+  pose proof (Lex.WsInsert.tiled_last gen_table C14_pString C14_pComment C14_pWhitespace C14_before_string C14_after_string
+              C14_tab_L0 C14_pNewline C14_tab_n0 C14_tab_N rs1 s1 s2 Hc H He) as TL.
+  apply C14_blank_lines_program; [|exact Hne|exact Hf|exact Hf'].
+  apply Parse.BlankSim.more_blank_lines_ec.
+  apply (Parse.SourceLayout.blank_line_tokens _ _ (Lex.WsInsert.rks rs1) (Lex.WsInsert.rks (raw_lex (length s2) gen_table s2)) EA EB).
+  destruct TL as [->|(rs0 & ->)]; [left; reflexivity|right]. exists (Lex.WsInsert.rks rs0).
+  rewrite Lex.WsInsert.rks_app. reflexivity.
+Qed.
+Print Assumptions C14_blank_line_source.
+
+(* the hypothesis pinned: the text before the insertion point is empty or ends with a token whose text is the
+   line-break character *)
+Example C14_ends10_def :
+  Lex.WsInsert.ends10 [] /\
+  (forall r rs, Lex.WsInsert.ends10 (r :: rs) <-> r_text (last (r :: rs) (mkR (KTok "Newline" PNone) [10%N])) = [10%N]).
+Proof. split; [exact I|]. intros r rs. split; intros H; exact H. Qed.
+
+
 (* ---- non-vacuity ---- *)
 Definition nm (s : string) : name := ascii_name s.
 Definition v (s : string) : ox := OGet (nm s) PNil.
@@ -711,6 +775,21 @@ Proof.
   split.
   - vm_compute. exists 1. eexists. split; [reflexivity|]. c14_bl.
   - vm_compute. do 4 eexists. split; [reflexivity|]. split; [reflexivity|]. split; [discriminate|reflexivity].
+Qed.
+
+(* a blank line added to the source text of the example (after its first line): the hypotheses hold *)
+Example C14_example_blank_line_source :
+  let s1 := (codes "main :: fn do // count" ++ [10]%N)%list in
+  let s2 := (codes "  a := 1 + 2" ++ [10]%N ++ codes "end" ++ [10]%N)%list in
+  (s1 ++ s2)%list = C14_src_lf /\
+  exists rs1, concat (map r_text rs1) = s1 /\
+              raw_lex (length (s1 ++ s2)) gen_table (s1 ++ s2) = (rs1 ++ raw_lex (length s2) gen_table s2)%list /\
+              Lex.WsInsert.ends10 rs1 /\
+              hd TEOF (CommentSim.ec (map classify (lex gen_table (s1 ++ s2)))) <> TEOF.
+Proof.
+  split; [vm_compute; reflexivity|].
+  exists (firstn 10 (raw_lex (length C14_src_lf) gen_table C14_src_lf)).
+  split; [vm_compute; reflexivity|split; [vm_compute; reflexivity|split; [vm_compute; reflexivity|vm_compute; discriminate]]].
 Qed.
 
 Example C14_example_source_to_tree :
